@@ -45,6 +45,7 @@ type EngOpt struct {
 	Checkpoints  bool
 	Dwell        bool
 	DeleteBias   int
+	TrailingOps  bool // after the last snapshot, one more phase of writes and then Close() without any further GC/checkpoint
 	SharedDelete bool // several writers may delete the same key (C06 contention): keys are then owned for Put only
 }
 
@@ -631,6 +632,23 @@ func (e *Engine) Run() {
 	e.mu.Unlock()
 	if e.failed() {
 		e.collectAllocViolations()
+		return
+	}
+	if o.TrailingOps {
+		// leave garbage in every queue: current-epoch deletes in the writers' lists, no final GC pass
+		e.runPhase(o.Phases)
+		if e.db.A != nil {
+			e.db.A.SetOnFree(nil)
+		}
+		e.db.N.Close()
+		if e.db.A != nil {
+			e.collectAllocViolations()
+			if n := e.db.A.LiveCount(); n != 0 {
+				e.problem("C07", "leak", "%d blocks still allocated after Close() with garbage pending in the writers' lists; first: %+v", n, e.db.A.Leaks(3))
+			}
+			e.db.A.CheckQuarantine()
+			e.collectAllocViolations()
+		}
 		return
 	}
 	e.checkpoint("final")
